@@ -44,7 +44,7 @@ MEDIA = ["live", "dcp", "binary", "spreadsheet"]
 def budget(tier):
     if tier == "thorough":
         return {"runs": 3000, "wall": 1500, "chunk": 2, "minimise_s": 120}
-    return {"runs": 320, "wall": 170, "chunk": 2, "minimise_s": 45}
+    return {"runs": 320, "wall": 250, "chunk": 2, "minimise_s": 45}
 
 
 def prepare(tier):
